@@ -25,7 +25,7 @@ from .variants import VARIANTS
 ALL_PROPS = [f'C{i:02d}' for i in range(1, 21)]
 
 
-MODERNISE_KINDS = ('suppress', 'else_nest', 'else_unnest', 'cmp_flip', 'tern_expand', 'aug_expand', 'lit_ctor', 'ret_local')
+MODERNISE_KINDS = ('suppress', 'else_nest', 'else_unnest', 'cmp_flip', 'tern_expand', 'aug_expand', 'lit_ctor', 'ret_local', 'walrus', 'tern_fold')
 _TERMINAL = None
 
 
@@ -72,6 +72,14 @@ def modernise_sites(tree, kind):
                         isinstance(st.value, ast.Constant) and isinstance(st.value.value, (int, float)) and not isinstance(st.value.value, bool)
                 elif kind == 'lit_ctor':
                     ok = not isinstance(st, (ast.FunctionDef, ast.AsyncFunctionDef, ast.ClassDef)) and _first_empty_literal(st) is not None
+                elif kind == 'walrus':
+                    ok = isinstance(st, ast.Assign) and len(st.targets) == 1 and isinstance(st.targets[0], ast.Name) and i + 1 < len(lst) and \
+                        isinstance(lst[i + 1], ast.If) and _first_evaluated_name(lst[i + 1].test, st.targets[0].id) is not None and \
+                        not any(isinstance(n, ast.Name) and n.id == st.targets[0].id for n in ast.walk(st.value))
+                elif kind == 'tern_fold':
+                    ok = isinstance(st, ast.If) and len(st.body) == 1 and len(st.orelse) == 1 and isinstance(st.body[0], ast.Assign) and \
+                        isinstance(st.orelse[0], ast.Assign) and len(st.body[0].targets) == 1 and len(st.orelse[0].targets) == 1 and \
+                        isinstance(st.body[0].targets[0], (ast.Name, ast.Attribute)) and ast.dump(st.body[0].targets[0]) == ast.dump(st.orelse[0].targets[0])
                 elif kind == 'ret_local':
                     ok = isinstance(st, ast.Return) and st.value is not None and not isinstance(st.value, (ast.Name, ast.Constant))
                 if ok:
@@ -90,6 +98,22 @@ def _own_exprs(st):
                 yield v
             elif isinstance(v, ast.withitem):
                 yield v.context_expr
+
+
+def _first_evaluated_name(test, name):
+    """the Name node of `name` when it is the very first thing the test evaluates (through not / and / or / a comparison's left operand)"""
+    import ast
+    t = test
+    while True:
+        if isinstance(t, ast.UnaryOp) and isinstance(t.op, ast.Not):
+            t = t.operand
+        elif isinstance(t, ast.BoolOp):
+            t = t.values[0]
+        elif isinstance(t, ast.Compare):
+            t = t.left
+        else:
+            break
+    return t if isinstance(t, ast.Name) and t.id == name else None
 
 
 def _first_empty_literal(st):
@@ -162,6 +186,15 @@ def modernise(tree, kind, lineno, col):
                     n.__class__ = ast.Call
                     n.__dict__.clear()
                     n.__dict__.update(dict(func=ast.Name(id=name, ctx=ast.Load()), args=[], keywords=[]))
+                elif kind == 'walrus':
+                    nm = _first_evaluated_name(lst[i + 1].test, st.targets[0].id)
+                    val = st.value
+                    nm.__class__ = ast.NamedExpr
+                    nm.__dict__.clear()
+                    nm.__dict__.update(dict(target=ast.Name(id=st.targets[0].id, ctx=ast.Store()), value=val))
+                    del lst[i]
+                elif kind == 'tern_fold':
+                    lst[i] = ast.Assign(targets=[st.body[0].targets[0]], value=ast.IfExp(test=st.test, body=st.body[0].value, orelse=st.orelse[0].value))
                 elif kind == 'ret_local':
                     lst[i:i + 1] = [ast.Assign(targets=[ast.Name(id='_rv', ctx=ast.Store())], value=st.value), ast.Return(value=ast.Name(id='_rv', ctx=ast.Load()))]
                 elif kind == 'aug_expand':
